@@ -78,11 +78,12 @@ func genC01(c *w1Case, r *simrt.Rng, thorough bool) {
 		scenarioLearningGateKeyAxis(c, r)
 		return
 	}
-	axes := r.Pick(6, 3, 1)
+	axes := r.Pick(5, 3, 2)
 	acts := append([]string{}, transposeActions...)
-	acts = append(acts, "panic", "multinote")
+	acts = append(acts, "panic", "multinote", "cc_learning")
 	o := genOpts{prop: "C01", nKeys: [2]int{2, 12}, nMaps: [2]int{1, 3}, notePool: []int{60, 60, 62, 64, 72, 48, 60}, offsets: r.Chance(0.5),
-		actions: acts, exitLen: -1, defaults: true, unmapProb: 0.3, remapProb: 0.3, axes: axes, axisKinds: []string{"key", "key1"}, handlers: 1}
+		actions: acts, exitLen: -1, defaults: true, unmapProb: 0.3, remapProb: 0.3, axes: axes, axisKinds: []string{"key", "key1", "key", "cc", "cc2", "none"},
+		axisKindsPerMapping: true, handlers: 1}
 	c.d = baseDesc(r, o)
 	forceHatLike(c.d, r)
 	g := newScriptGen(r, c.d)
@@ -103,30 +104,25 @@ func genC01(c *w1Case, r *simrt.Rng, thorough bool) {
 	unplugPoints(c, r, thorough)
 }
 
-// forceHatLike gives key-emulating axes ranges whose shaped values are far from the thresholds.
+// forceHatLike turns some key-emulating axes into hats (-1/0/1) and then makes every mapping see the
+// same physical range for the same axis code.
 func forceHatLike(d *model.Desc, r *simrt.Rng) {
+	hat := map[uint16]bool{}
 	for mi := range d.Mappings {
 		for si := range d.Mappings[mi].Analog {
 			for ai := range d.Mappings[mi].Analog[si].Axes {
 				a := &d.Mappings[mi].Analog[si].Axes[ai]
-				if a.Type == "key" && r.Chance(0.5) {
+				if _, seen := hat[a.Code]; !seen {
+					hat[a.Code] = a.Type == "key" && r.Chance(0.5)
+				}
+				if hat[a.Code] {
 					a.Min, a.Max = -1, 1
 					a.Deadzone = fp(0)
-					a.DZCenter = false
 				}
 			}
 		}
 	}
-	// all mappings share the axis ranges of the first one (one physical device)
-	for mi := 1; mi < len(d.Mappings); mi++ {
-		for si := range d.Mappings[mi].Analog {
-			for ai := range d.Mappings[mi].Analog[si].Axes {
-				a := &d.Mappings[mi].Analog[si].Axes[ai]
-				b := d.Mappings[0].Analog[si].Axes[ai]
-				a.Min, a.Max = b.Min, b.Max
-			}
-		}
-	}
+	shareRanges(d)
 }
 
 func (g *scriptGen) axisList() []model.AxisDesc {
@@ -198,20 +194,60 @@ func (g *scriptGen) axisMove(r *simrt.Rng) {
 	g.out = append(g.out, model.Event{Kind: "abs", Handler: 0, Code: a.Code, Value: g.safeRaw(r, a)})
 }
 
-func restRaw(a model.AxisDesc) int32 {
-	if a.Min < 0 {
-		return 0
+// neutralRaw finds a raw position at which the axis sounds no direction in any mapping that uses it
+// as a key (the physical centre if possible).
+func (g *scriptGen) neutralRaw(a model.AxisDesc) (int32, bool) {
+	centre := int32(0)
+	if a.Min == 0 {
+		centre = (a.Max + 1) / 2
 	}
-	if a.DZCenter || a.Type == "key" {
-		return (a.Max + 1) / 2
+	cands := []int32{centre}
+	for i := 0; i <= 64; i++ {
+		cands = append(cands, a.Min+int32(int64(a.Max-a.Min)*int64(i)/64))
 	}
-	return 0
+	for _, v := range cands {
+		ok := true
+		for _, m := range g.d.Mappings {
+			for si := range m.Analog {
+				for _, b := range m.Analog[si].Axes {
+					if b.Code != a.Code || b.Type != "key" {
+						continue
+					}
+					s, canNeg, _, good := model.Shape(&b, &m.Analog[si], v)
+					if !good || model.NearDeadzoneEdge(&b, &m.Analog[si], v) {
+						ok = false
+						continue
+					}
+					f := model.Flipped(&b, s, canNeg)
+					if !model.Neutral(f, canNeg) {
+						ok = false
+					}
+				}
+			}
+		}
+		if ok {
+			return v, true
+		}
+	}
+	return 0, false
 }
 
 func (g *scriptGen) axesToCentre() {
+	isKey := map[uint16]bool{}
+	for _, m := range g.d.Mappings {
+		for _, sa := range m.Analog {
+			for _, a := range sa.Axes {
+				if a.Type == "key" {
+					isKey[a.Code] = true
+				}
+			}
+		}
+	}
 	for _, a := range g.axisList() {
-		if a.Type == "key" {
-			g.out = append(g.out, model.Event{Kind: "abs", Handler: 0, Code: a.Code, Value: restRaw(a)})
+		if isKey[a.Code] {
+			if v, ok := g.neutralRaw(a); ok {
+				g.out = append(g.out, model.Event{Kind: "abs", Handler: 0, Code: a.Code, Value: v})
+			}
 		}
 	}
 }
